@@ -179,10 +179,14 @@ func (c *Ctx) oblige(kind string, tags []string, guard, goal, where, detail stri
 		}
 		tags = kept
 	}
-	if sweepKinds[kind] && c.sweepFilter != nil && len(tags) > 0 {
+	fkind := kind
+	if kind == "makelen" {
+		fkind = "makeslice" // claimed wherever make() is swept
+	}
+	if sweepKinds[fkind] && c.sweepFilter != nil && len(tags) > 0 {
 		var kept []string
 		for _, t := range tags {
-			if ks, ok := c.sweepFilter[t]; !ok || ks[kind] {
+			if ks, ok := c.sweepFilter[t]; !ok || ks[fkind] {
 				kept = append(kept, t)
 			}
 		}
@@ -219,7 +223,7 @@ func (c *Ctx) oblige(kind string, tags []string, guard, goal, where, detail stri
 	}
 }
 
-var panicKinds = map[string]bool{"nil": true, "index": true, "slice": true, "div": true, "nilinvoke": true, "nilmap": true, "typeassert": true, "panic": true, "makeslice": true, "nilcall": true}
+var panicKinds = map[string]bool{"nil": true, "index": true, "slice": true, "div": true, "nilinvoke": true, "nilmap": true, "typeassert": true, "panic": true, "makeslice": true, "makelen": true, "nilcall": true}
 
 // checkProp is the property whose check is running ("" in `govc func` mode: everything is shown and assumed).
 var checkProp string
